@@ -7,10 +7,12 @@ package main
 
 import (
 	"bytes"
+	"crypto"
 	"crypto/tls"
 	"crypto/x509"
 	"database/sql"
 	"encoding/pem"
+	"errors"
 	"fmt"
 	"io"
 	stdlog "log"
@@ -23,6 +25,7 @@ import (
 	"sort"
 	"strings"
 	"sync"
+	"sync/atomic"
 	"time"
 	"unsafe"
 
@@ -957,4 +960,43 @@ func (e *verifEnv) TLSFor(leaf *x509.Certificate) *tls.ConnectionState {
 
 func verifPEMCert(der []byte) []byte {
 	return pem.EncodeToMemory(&pem.Block{Type: "CERTIFICATE", Bytes: der})
+}
+
+// ---- signer faults (C02) ---------------------------------------------------------
+
+// verifFaultySigner is the CA signer behind an HSM / agent that starts failing: Public() keeps working, Sign() errors.
+type verifFaultySigner struct {
+	inner crypto.Signer
+	fail  *int32
+}
+
+func (f verifFaultySigner) Public() crypto.PublicKey { return f.inner.Public() }
+func (f verifFaultySigner) Sign(r io.Reader, digest []byte, opts crypto.SignerOpts) ([]byte, error) {
+	if atomic.LoadInt32(f.fail) != 0 {
+		return nil, errors.New("verif: signing device unavailable")
+	}
+	return f.inner.Sign(r, digest, opts)
+}
+
+// SetSignerFault wraps (on) or restores (off) the daemon's CA signers.
+func (e *verifEnv) SetSignerFault(on bool) {
+	e.State.Mutex.Lock()
+	defer e.State.Mutex.Unlock()
+	unwrap := func(s crypto.Signer) crypto.Signer {
+		if f, ok := s.(verifFaultySigner); ok {
+			return f.inner
+		}
+		return s
+	}
+	e.State.Signer = unwrap(e.State.Signer)
+	if e.State.Ed25519Signer != nil {
+		e.State.Ed25519Signer = unwrap(e.State.Ed25519Signer)
+	}
+	if on {
+		one := int32(1)
+		e.State.Signer = verifFaultySigner{e.State.Signer, &one}
+		if e.State.Ed25519Signer != nil {
+			e.State.Ed25519Signer = verifFaultySigner{e.State.Ed25519Signer, &one}
+		}
+	}
 }
